@@ -9,9 +9,12 @@
      ColMap.Infer      col_map.go      splitTypeArgs(t.Elem()) - the commas outside parentheses and quotes - must give two
                                        pieces: Keys.Infer(TrimSpace(first)), then Values.Infer(TrimSpace(second))  (repaired:
                                        before, the string was cut at its first comma and any further comma was an error)
-     ColTuple.Infer    col_tuple.go    every Inferable member gets the WHOLE string t (not repaired; a tuple with an adopting
-                                       member rejects its own type)
-     ColNamed.Infer    col_tuple.go    ColumnOf.Infer(t), the whole string
+     ColTuple.Infer    col_tuple.go    splitTypeArgs(t.Elem()) must give as many pieces as the tuple has elements (checked when
+                                       there is an Inferable element); element i gets Infer(TrimSpace(piece i))  (repaired
+                                       by the C18y extension: before, every Inferable member got the WHOLE string t, so that a
+                                       tuple with an adopting member rejected its own type)
+     ColNamed.Infer    col_tuple.go    the string must be "<Name> <type>" (strings.CutPrefix): ColumnOf.Infer(<type>)  (repaired
+                                       together with ColTuple.Infer: it used to forward the string unchanged)
      ColAuto.Infer     col_auto.go     a compatible type is handed to the held column (top level only: a ColAuto is
                                        not a ColumnOf[T], so it cannot be wrapped)
    Adopting leaves: ColEnum, ColDateTime, ColDateTime64, ColInterval.  ColFixedStr and the decimals do not implement
@@ -105,35 +108,13 @@ Section ResProofs2.
   Notation run_blocks := (run_blocks zone tl).
   Notation bound := (bound zone tl).
 
-  (* ColTuple.Infer as a function of its own *)
-  Fixpoint tup_infer (s : bytes) (ts : list ty) : list ty * iout :=
-    match ts with
-    | [] => ([], IOk)
-    | t0 :: r =>
-      let '(t0', o) := if inferable_ty t0 then infer_st t0 s else (t0, IOk) in
-      match o with
-      | IOk => let '(r', o') := tup_infer s r in (t0' :: r', o')
-      | _ => (t0' :: r, o)
-      end
-    end.
-  Lemma infer_st_tuple ts s : infer_st (TTuple ts) s = let '(ts', o) := tup_infer s ts in (TTuple ts', o).
-  Proof.
-    cbn [Results.infer_st].
-    match goal with |- (let '(a, b) := ?g ts in _) = _ => assert (Hg : g ts = tup_infer s ts) end.
-    { induction ts as [|t0 r IH]; [reflexivity|]. cbn [tup_infer]. rewrite <- IH. reflexivity. }
-    now rewrite Hg.
-  Qed.
-
   (* what the wrappers do, equation by equation *)
   Lemma infer_st_wrap k d s : infer_st (wrap_ty k d) s =
     if inferable_ty d then let '(d', o) := infer_st d (elem s) in (wrap_ty k d', o) else (wrap_ty k d, IOk).
   Proof. destruct k; cbn [wrap_ty Results.infer_st]; now rewrite elem_r_ok. Qed.
 
-  Lemma infer_st_named n d s : infer_st (TNamed n d) s =
-    if inferable_ty d then let '(d', o) := infer_st d s in (TNamed n d', o) else (TNamed n d, IOk).
-  Proof. reflexivity. Qed.
-
-  Definition opt_infer (t : ty) (s : bytes) : ty * iout := if inferable_ty t then infer_st t s else (t, IOk).
+  Notation opt_infer := (opt_infer zone tl).
+  Notation tup_infer := (tup_infer zone tl).
 
   Lemma infer_st_map k v s : infer_st (TMap k v) s =
     match split_type_args (elem s) with
@@ -316,16 +297,12 @@ Section ResProofs2.
       destruct (opt_infer k (trim_space kt)) as [k' ok]. cbn [fst] in Hk.
       destruct ok; [|cbn [fst skel]; now rewrite Hk..].
       destruct (opt_infer v (trim_space vt)) as [v' ov]. cbn [fst skel] in *. now rewrite Hk, Hv.
-    - rewrite infer_st_tuple.
-      assert (Hm : map skel (fst (tup_infer s ts)) = map skel ts).
-      { induction IH as [|t0 r Ht0 _ IHr]; [reflexivity|]. cbn [tup_infer].
-        pose proof (opt_infer_skel t0 s Ht0) as H0. unfold opt_infer in H0.
-        destruct (if inferable_ty t0 then infer_st t0 s else (t0, IOk)) as [t0' o]. cbn [fst] in H0.
-        destruct o; [|cbn [fst map]; now rewrite H0..].
-        destruct (tup_infer s r) as [r' o']. cbn [fst map] in *. now rewrite H0, IHr. }
-      destruct (tup_infer s ts) as [ts' o]. cbn [fst skel] in *. now rewrite Hm.
-    - rewrite infer_st_named. destruct (inferable_ty t); [|reflexivity].
-      specialize (IH s). destruct (infer_st t s) as [d' o]. cbn [fst skel] in *. now rewrite IH.
+    - rewrite infer_st_tuple. destruct (existsb inferable_ty ts); [|reflexivity]. destruct (negb _); [reflexivity|].
+      pose proof (tup_infer_rel zone tl (fun t t' => skel t' = skel t) (fun t => eq_refl) ts IH (split_type_args (elem s))) as HF.
+      destruct (tup_infer ts _) as [ts' o]. cbn [fst skel] in *. f_equal.
+      clear -HF. induction HF; cbn [map]; congruence.
+    - rewrite infer_st_named. destruct (inferable_ty t); [|reflexivity]. destruct (cut_prefix _ s) as [e|]; [|reflexivity].
+      specialize (IH e). destruct (infer_st t e) as [d' o]. cbn [fst skel] in *. now rewrite IH.
   Qed.
 
   (* ---- nesting independence: outcome and adopted column are functions of the shape and the server's string ---- *)
@@ -405,28 +382,42 @@ Section ResProofs2.
       cbn [fst snd] in *. subst ovb. split; [reflexivity|]. intros Hx. now rewrite (Hfv Hx).
     - cbn [skel] in H. symmetry in H. apply skel_inv_tuple in H. destruct H as (ts2 & -> & Hm). symmetry in Hm.
       unfold same_infer. rewrite !infer_st_tuple.
-      assert (Hg : snd (tup_infer s ts) = snd (tup_infer s ts2) /\
-                   (snd (tup_infer s ts) = IOk -> fst (tup_infer s ts) = fst (tup_infer s ts2))).
-      { revert ts2 Hm. induction IH as [|t0 r Ht0 _ IHr]; intros ts2 Hm.
+      assert (He : existsb inferable_ty ts2 = existsb inferable_ty ts).
+      { clear -Hm. revert ts2 Hm. induction ts as [|a r IHr]; intros [|b r2] Hm; try discriminate; [reflexivity|].
+        cbn [map] in Hm. injection Hm as H0 Hr. cbn [existsb]. now rewrite (skel_inferable _ _ H0), (IHr r2 Hr). }
+      assert (Hl : length ts2 = length ts) by (rewrite <- (map_length skel ts2), <- Hm; apply map_length).
+      assert (Hplain : existsb inferable_ty ts = false -> ts = ts2).
+      { clear -Hm. revert ts2 Hm. induction ts as [|a r IHr]; intros [|b r2] Hm; try discriminate; [reflexivity|].
+        cbn [map] in Hm. injection Hm as H0 Hr. cbn [existsb]. intros Hx. apply orb_false_iff in Hx. destruct Hx as [Ha Hr'].
+        now rewrite (skel_plain _ _ Ha H0), (IHr r2 Hr Hr'). }
+      rewrite He, Hl. destruct (existsb inferable_ty ts).
+      2:{ cbn [fst snd]. split; [reflexivity|]. intros _. now rewrite Hplain. }
+      destruct (negb _) eqn:El; [cbn [fst snd]; split; [reflexivity|discriminate]|].
+      apply negb_false_iff, Nat.eqb_eq in El.
+      assert (Hg : forall args, length args = length ts ->
+                   snd (tup_infer ts args) = snd (tup_infer ts2 args) /\
+                   (snd (tup_infer ts args) = IOk -> fst (tup_infer ts args) = fst (tup_infer ts2 args))).
+      { clear He Hl Hplain El. revert ts2 Hm. induction IH as [|t0 r Ht0 _ IHr]; intros ts2 Hm args Hla.
         - destruct ts2; [|discriminate]. now split.
         - destruct ts2 as [|u0 r2]; [discriminate|]. cbn [map] in Hm. injection Hm as H0 Hr.
-          cbn [tup_infer].
-          destruct (opt_infer_same t0 u0 s H0 (fun s0 => Ht0 u0 s0 H0)) as [Ho Hf]. unfold opt_infer in Ho, Hf.
-          destruct (if inferable_ty t0 then infer_st t0 s else (t0, IOk)) as [a oa].
-          destruct (if inferable_ty u0 then infer_st u0 s else (u0, IOk)) as [b ob].
-          cbn [fst snd] in Ho, Hf. subst ob.
-          destruct oa; [|cbn [fst snd]; split; [reflexivity|discriminate]..].
-          rewrite (Hf eq_refl). destruct (IHr r2 Hr) as [Ho2 Hf2].
-          destruct (tup_infer s r) as [ra oa2]. destruct (tup_infer s r2) as [rb ob2]. cbn [fst snd] in *.
+          destruct args as [|a ar]; [discriminate|]. cbn [length] in Hla. injection Hla as Hla.
+          cbn [ResultsProofs.tup_infer].
+          destruct (opt_infer_same t0 u0 (trim_space a) H0 (fun s0 => Ht0 u0 s0 H0)) as [Ho Hf].
+          destruct (opt_infer t0 (trim_space a)) as [x ox]. destruct (opt_infer u0 (trim_space a)) as [y oy].
+          cbn [fst snd] in Ho, Hf. subst oy.
+          destruct ox; [|cbn [fst snd]; split; [reflexivity|discriminate]..].
+          rewrite (Hf eq_refl). destruct (IHr r2 Hr ar Hla) as [Ho2 Hf2].
+          destruct (tup_infer r ar) as [ra oa2]. destruct (tup_infer r2 ar) as [rb ob2]. cbn [fst snd] in *.
           subst ob2. split; [reflexivity|]. intros Hx. now rewrite (Hf2 Hx). }
-      destruct Hg as [Ho Hf].
-      destruct (tup_infer s ts) as [a oa]. destruct (tup_infer s ts2) as [b ob]. cbn [fst snd] in *.
+      destruct (Hg _ El) as [Ho Hf].
+      destruct (tup_infer ts _) as [x ox]. destruct (tup_infer ts2 _) as [y oy]. cbn [fst snd] in *.
       split; [exact Ho|]. intros Hx. now rewrite (Hf Hx).
     - cbn [skel] in H. symmetry in H. apply skel_inv_named in H. destruct H as (d2 & -> & Hd). symmetry in Hd.
       unfold same_infer. rewrite !infer_st_named, <- (skel_inferable _ _ Hd).
       destruct (inferable_ty t) eqn:Ei.
-      + destruct (IH d2 s Hd) as [Ho Hf].
-        destruct (infer_st t s) as [a oa]. destruct (infer_st d2 s) as [b ob]. cbn [fst snd] in *.
+      + destruct (cut_prefix _ s) as [e|]; [|cbn [fst snd]; split; [reflexivity|discriminate]].
+        destruct (IH d2 e Hd) as [Ho Hf].
+        destruct (infer_st t e) as [x ox]. destruct (infer_st d2 e) as [y oy]. cbn [fst snd] in *.
         split; [exact Ho|]. intros Hx. now rewrite (Hf Hx).
       + cbn [fst snd]. split; [reflexivity|]. intros _. f_equal. now apply skel_plain.
   Qed.
@@ -449,7 +440,7 @@ Section ResProofs2.
 
   (* ---- what is adopted: the parameters spelled at the leaf's position in the server's string --------------------- *)
   (* [adopted t' s]: walking the server's string the way the wrappers split it (Array, Nullable, LowCardinality: Elem();
-     Map: the two top-level arguments of Elem(), trimmed; Tuple and Named: the whole string), every leaf holds exactly the parameters of
+     Map and Tuple: the top-level arguments of Elem(), trimmed; Named: what follows its own name), every leaf holds exactly the parameters of
      the piece it was handed: an Enum that piece as its type, the width of its base and the definitions parsed from
      it; a DateTime the zone named there (as time.LoadLocation reports it) or none; a DateTime64 the precision and the
      zone named there or none; an Interval that piece as its name.  Columns that are not Inferable are untouched
@@ -471,12 +462,14 @@ Section ResProofs2.
       | _ => False
       end
     | TTuple ts =>
-      (fix go (l : list ty) : Prop :=
-         match l with
-         | [] => True
-         | t0 :: r => (inferable_ty t0 = true -> adopted t0 s) /\ go r
-         end) ts
-    | TNamed _ d => inferable_ty d = true -> adopted d s
+      existsb inferable_ty ts = true ->
+      length (split_type_args (elem s)) = length ts /\
+      (fix go (l : list ty) (args : list bytes) : Prop :=
+         match l, args with
+         | t0 :: r, a :: ar => (inferable_ty t0 = true -> adopted t0 (trim_space a)) /\ go r ar
+         | _, _ => True
+         end) ts (split_type_args (elem s))
+    | TNamed n d => inferable_ty d = true -> exists e, cut_prefix (n ++ [32]) s = Some e /\ adopted d e
     | _ => True
     end.
 
@@ -528,15 +521,25 @@ Section ResProofs2.
       split.
       + now apply (opt_adopted k (trim_space kt) k' IHk).
       + now apply (opt_adopted v (trim_space vt) v' IHv).
-    - rewrite infer_st_tuple. destruct (tup_infer s ts) as [ts' o] eqn:Et. intros [= <- ->]. cbn [adopted].
-      revert ts' Et. induction IH as [|t0 r Ht0 _ IHr]; intros ts' Et; cbn [tup_infer] in Et.
-      + now injection Et as <-.
-      + destruct (if inferable_ty t0 then infer_st t0 s else (t0, IOk)) as [t0' o0] eqn:E0.
-        destruct o0; [|discriminate..].
-        destruct (tup_infer s r) as [r' o'] eqn:Er. injection Et as <- ->.
-        split; [|now apply IHr]. now apply (opt_adopted t0 s t0' Ht0).
+    - rewrite infer_st_tuple. destruct (existsb inferable_ty ts) eqn:Ee.
+      2:{ intros [= <-]. cbn [adopted]. intros Hx. congruence. }
+      destruct (negb _) eqn:El; [discriminate|]. apply negb_false_iff, Nat.eqb_eq in El.
+      destruct (tup_infer ts _) as [ts' o] eqn:Et. intros [= <- ->]. cbn [adopted]. intros _.
+      assert (Hl' : length ts' = length ts).
+      { pose proof (tup_infer_rel zone tl (fun _ _ => True) (fun _ => I) ts) as HF.
+        assert (HT : Forall (fun t : ty => forall s0 : bytes, True) ts) by (apply Forall_forall; auto).
+        specialize (HF HT (split_type_args (elem s))). rewrite Et in HF. cbn [fst] in HF. clear -HF. induction HF; cbn [length]; congruence. }
+      split; [congruence|]. clear El Hl' Ee.
+      revert Et. generalize (split_type_args (elem s)) as args. revert ts'.
+      induction IH as [|t0 r Ht0 _ IHr]; intros ts' args Et; destruct args as [|a ar];
+        cbn [ResultsProofs.tup_infer] in Et; try (apply (f_equal fst) in Et; cbn [fst] in Et; subst ts'; exact I).
+      destruct (opt_infer t0 (trim_space a)) as [t0' o0] eqn:E0.
+      destruct o0; [|discriminate..].
+      destruct (tup_infer r ar) as [r' o'] eqn:Er. injection Et as <- ->.
+      split; [|now apply IHr]. now apply (opt_adopted t0 (trim_space a) t0' Ht0).
     - rewrite infer_st_named. destruct (inferable_ty t) eqn:Ei.
-      + destruct (infer_st t s) as [d' o] eqn:Ed. intros [= <- ->]. cbn [adopted]. intros _. now apply IH.
+      + destruct (cut_prefix _ s) as [e|] eqn:Ec; [|discriminate].
+        destruct (infer_st t e) as [d' o] eqn:Ed. intros [= <- ->]. cbn [adopted]. intros _. exists e. split; [exact Ec|]. now apply IH.
       + intros Hx; apply (f_equal fst) in Hx; cbn [fst] in Hx; subst t'. cbn [adopted]. congruence.
   Qed.
 
